@@ -7,5 +7,6 @@ From Topics Require Script.
 From Ackq Require Model.
 From Ring Require Seq LiveScript.
 From Proto Require Script.
+From Client Require Script.
 Extraction "model.ml" Codec.Script.run_codec Topics.Script.run_topics Ackq.Model.run_ackq Ring.Seq.run_ring
-  Ring.LiveScript.run_live Proto.Script.run_broker.
+  Ring.LiveScript.run_live Proto.Script.run_broker Client.Script.run_client.
